@@ -33,20 +33,38 @@ OPS = ['', '=', '<>', '<', '<=', '>', '>=']
 
 
 def _cell(d):
-    k = d.pick(6)
+    k = d.pick(8)
     if k < 2:
         return d.int(-6, 9)
     if k == 2:
         return d.int(-40, 60) / 4.0
+    if k == 6:
+        # other KINDS of the same values: integer-valued floats, values
+        # produced by a formula (['f', source, value]), non-ASCII words
+        n = d.int(-3, 6)
+        return d.choice([float(n), ['f', '=%d+1' % n, n + 1],
+                         ['f', '=%d/2' % n, n / 2.0],
+                         ['f', '="fo"&"o"', 'foo'], ['f', '="B"&"ar"', 'Bar'],
+                         u'\xc9t\xe9', u'\xe9t\xe9', 'Foo'])
+    if k == 7:
+        return d.choice([0, 0.0, -0.0, 1e-9, -1e-9, 3, 3.0])
     return d.choice(WORDS) if k < 5 else d.int(0, 3)
+
+
+def val(v):
+    return v[2] if isinstance(v, list) else v
+
+
+def src(v):
+    return v[1] if isinstance(v, list) else v
 
 
 def _crit(d, col):
     op = d.choice(OPS)
     if d.pick(3) and col:
-        v = d.choice(col)
+        v = val(d.choice(col))
     else:
-        v = _cell(d)
+        v = val(_cell(d))
     if isinstance(v, str):
         if d.pick(2):
             v = v.swapcase()
@@ -65,11 +83,21 @@ def _build(d):
         ncrit = 1 if k == 0 else d.int(1, 3)
         cols = [[_cell(d) for _ in range(nrows)] for _ in range(ncrit)]
         crits = [_crit(d, c) for c in cols]
+        for c, cr in zip(cols, crits):
+            # BLANK cells: only under criteria for which the statement
+            # decides them (ordering operators, equality with a text)
+            op, operand = parse_criterion(cr)
+            if (op in ('<', '<=', '>', '>=') or (
+                    op == '=' and isinstance(operand, str) and operand)) \
+                    and d.pick(3) == 0:
+                for i in range(len(c)):
+                    if d.pick(4) == 0:
+                        c[i] = None
         return {'k': 'COUNTIF' if k == 0 else 'COUNTIFS', 'cols': cols,
                 'crits': crits, 'orient': d.choice(['c', 'c', 'r'])}
     if k == 3:
         col = [_cell(d) for _ in range(nrows)]
-        key = d.choice(col) if d.pick(4) else _cell(d)
+        key = val(d.choice(col) if d.pick(4) else _cell(d))
         if isinstance(key, str) and d.pick(3) == 0:
             key = key.swapcase()
         return {'k': 'MATCH0', 'col': col, 'key': key}
@@ -86,7 +114,7 @@ def _build(d):
         ncols = d.int(1, 5)
         table = [[_cell(d) for _ in range(ncols)] for _ in range(nrows)]
         keys = [r[0] for r in table]
-        key = d.choice(keys) if d.pick(5) else _cell(d)
+        key = val(d.choice(keys) if d.pick(5) else _cell(d))
         if isinstance(key, str) and d.pick(4) == 0:
             key = key.swapcase()
         return {'k': 'VLOOKUP', 'table': table, 'key': key,
@@ -98,7 +126,7 @@ def _build(d):
         return {'k': 'CHOOSE', 'i': i, 'vals': [j * 3 + 1 for j in range(n)],
                 'mode': 'call' if d.pick(2) else 'formula'}
     return {'k': 'CHOOSE', 'i': d.int(0, n + 1),
-            'vals': [_cell(d) for _ in range(n)],
+            'vals': [val(_cell(d)) for _ in range(n)],
             'mode': 'call' if d.pick(2) else 'formula'}
 
 
@@ -164,6 +192,11 @@ def parse_criterion(c):
 
 
 def matches(cell, op, operand):
+    cell = val(cell)
+    if cell is None:
+        # only generated under ordering / text-equality criteria
+        assert op in ('<', '<=', '>', '>=', '='), op
+        return False
     same = is_num(cell) == is_num(operand)
     if is_num(cell) and is_num(operand):
         a, b = cell, operand
@@ -186,6 +219,7 @@ def lit(v):
 
 
 def eq_key(a, b):
+    a = val(a)
     if is_num(a) and is_num(b):
         return a == b
     if isinstance(a, str) and isinstance(b, str):
@@ -197,7 +231,8 @@ def _cells(cols):
     out = {}
     for c, col in enumerate(cols):
         for r, v in enumerate(col):
-            out['Sheet1!%s%d' % (num_to_col(c + 1), r + 1)] = v
+            if v is not None:
+                out['Sheet1!%s%d' % (num_to_col(c + 1), r + 1)] = src(v)
     return out
 
 
@@ -211,6 +246,7 @@ def N(x):
 
 
 def tagv(v):
+    v = val(v)
     return N(v) if is_num(v) else ('T', v)
 
 
@@ -230,7 +266,9 @@ def judge(case):
             rngs = []
             for j, col in enumerate(cols):
                 for i, v in enumerate(col):
-                    cells['Sheet1!%s%d' % (num_to_col(i + 1), j + 1)] = v
+                    if v is not None:
+                        cells['Sheet1!%s%d' % (num_to_col(i + 1),
+                                               j + 1)] = src(v)
                 rngs.append('A%d:%s%d' % (j + 1, num_to_col(n), j + 1))
             res.labels += ('row-ranges',)
         else:
@@ -265,7 +303,7 @@ def judge(case):
         want = N(pos) if pos else ('E', '#N/A')
         res.nontrivial = pos is not None and pos > 1
         if o != want:
-            exact_case = pos and col[pos - 1] == key
+            exact_case = pos and val(col[pos - 1]) == key
             res.fail('MATCH0:%s' % ('absent' if not pos else 'present'
                                     if exact_case else 'case-variant-key'),
                      want, o, f)
@@ -310,7 +348,7 @@ def judge(case):
             keys = [r[0] for r in table]
             dup = sum(1 for x in keys if eq_key(x, key)) > 1
             cls = ('absent' if row is None else 'duplicate-key' if dup
-                   else 'case-variant-key' if row[0] != key
+                   else 'case-variant-key' if val(row[0]) != key
                    else 'col%s' % ('1' if ci == 1 else '2' if ci == 2
                                    else '>2'))
             res.fail('VLOOKUP:%s' % cls, want, o, f)
